@@ -108,28 +108,42 @@ func c14ReqExec(c c14ReqCase, st *lab.Stats) *lab.Fail {
 	b := q.Req.Encode()
 	st.Case(nontrivial, b, cls...)
 	st.Sample(c)
-	var got []Obs
-	var n int
-	var derr error
-	site, val, _ := guard(func() {
-		n, derr = gldap.VerifDecodeStream(b, func(r *gldap.Request) { got = append(got, observe(r, "")) })
-	})
-	if val != nil {
-		return lab.Failf("decode-panic:"+site, "request with valid controls made the decoder panic: %v", val)
-	}
-	if n != 1 {
-		return lab.Failf("ctl-rejected", "request with valid controls %v was rejected: %v", kindsOf(q.Ctls), derr)
-	}
-	if len(got[0].Ctls) != len(q.Ctls) {
-		return lab.Failf("ctl-count", "handler sees %d controls, %d were sent (%v)", len(got[0].Ctls), len(q.Ctls), kindsOf(q.Ctls))
-	}
-	for i, cs := range q.Ctls {
-		spec := cs
-		if i < len(c.Encoders) && c.Encoders[i] != "wire" && spec.Kind == "generic" && len(spec.Value) == 0 {
-			spec.HasValue = false // gldap / go-ldap encoders omit an empty value
+	// twice: with the hook's default logger and with a logger at debug level (the read path dumps every packet
+	// then - code that must not disturb what is decoded afterwards)
+	for pass, logged := range []bool{false, true} {
+		var got []Obs
+		var n int
+		var derr error
+		how := ""
+		if logged {
+			how = " (connection logger at debug level)"
 		}
-		if err := checkCtl(spec, got[0].Ctls[i]); err != nil {
-			return lab.Failf("ctl-roundtrip:"+cs.Kind, "control %d of %v: %v", i, kindsOf(q.Ctls), err)
+		site, val, _ := guard(func() {
+			visit := func(r *gldap.Request) { got = append(got, observe(r, "")) }
+			if logged {
+				n, derr = gldap.VerifDecodeStreamLogged(b, c02DebugLogger, visit)
+			} else {
+				n, derr = gldap.VerifDecodeStream(b, visit)
+			}
+		})
+		_ = pass
+		if val != nil {
+			return lab.Failf("decode-panic:"+site, "request with valid controls made the decoder panic%s: %v", how, val)
+		}
+		if n != 1 {
+			return lab.Failf("ctl-rejected", "request with valid controls %v was rejected%s: %v", kindsOf(q.Ctls), how, derr)
+		}
+		if len(got[0].Ctls) != len(q.Ctls) {
+			return lab.Failf("ctl-count", "handler sees %d controls, %d were sent (%v)%s", len(got[0].Ctls), len(q.Ctls), kindsOf(q.Ctls), how)
+		}
+		for i, cs := range q.Ctls {
+			spec := cs
+			if i < len(c.Encoders) && c.Encoders[i] != "wire" && spec.Kind == "generic" && len(spec.Value) == 0 {
+				spec.HasValue = false // gldap / go-ldap encoders omit an empty value
+			}
+			if err := checkCtl(spec, got[0].Ctls[i]); err != nil {
+				return lab.Failf("ctl-roundtrip:"+cs.Kind, "control %d of %v%s: %v", i, kindsOf(q.Ctls), how, err)
+			}
 		}
 	}
 	return nil
@@ -146,7 +160,7 @@ func kindsOf(cs []CtlSpec) []string {
 func TestC14Req(t *testing.T) {
 	lab.Prop[c14ReqCase]{
 		ID: "C14", Part: "request",
-		Rule: "rapid: 0..6 controls of all kinds (page sizes 0..2^32-1, any cookies, grace/expire 0..2^31-1, error 0..8, any int64 VChu expiry - one in three written with 1..12 leading zeros by the independent encoder -, both criticalities, arbitrary OIDs/values, duplicates, any order) attached to Bind/Search/Modify/Add/Delete, each control encoded by one of three encoders (independent RFC-shape encoder, gldap's own Encode, go-ldap's Encode where usable) and decoded by the server's request path; oracle = same Go type and fields in the handler's Controls slice, in order; non-trivial = >= 2 controls or a non-default field value; distinct by hash of the bytes",
+		Rule: "rapid: 0..6 controls of all kinds (page sizes 0..2^32-1, any cookies, grace/expire 0..2^31-1, error 0..8, any int64 VChu expiry - one in three written with 1..12 leading zeros by the independent encoder -, both criticalities, arbitrary OIDs/values, duplicates, any order) attached to Bind/Search/Modify/Add/Delete, each control encoded by one of three encoders (independent RFC-shape encoder, gldap's own Encode, go-ldap's Encode where usable) and decoded by the server's request path - once with a quiet logger and once with the connection's logger at debug level -; oracle = same Go type and fields in the handler's Controls slice, in order; non-trivial = >= 2 controls or a non-default field value; distinct by hash of the bytes",
 		Gen: func(t *rapid.T) c14ReqCase {
 			kind := rapid.SampledFrom([]string{"bind", "search", "modify", "add", "delete"}).Draw(t, "kind")
 			r := genReq(kind, false).Draw(t, "req")
